@@ -102,3 +102,31 @@ Example C01_example :
   | _ => false
   end = true.
 Proof. vm_compute. reflexivity. Qed.
+
+(** ---- function bodies REGENERATED from match.py as glue terms (Gen/MatchGlue.v), run by the interpreter of Model/GlueFun.v with
+     the leaves of Model/GlueLeaves.v (callees mean their models), are the hand-written models ---- *)
+From TW Require Import Model.GlueLeaves Gen.MatchGlue Proofs.GlueMatchProofs.
+Open Scope string_scope.
+(** integral_matching_reference_stretch (no smoothing): argument checks, the three ways of fixing points, the reference
+    integrals and the call of the interval loop — as regenerated — are the model's match_ref *)
+Theorem C01_glue_match_ref : forall pw x y xr yr m rt rr,
+  outcome_arr (call_fun (match_callf pw) array_methf no_apply no_pow match_functions "integral_matching_reference_stretch"
+     ([("x", VArr x); ("y", VArr y); ("x_ref", VArr xr); ("y_ref", VArr yr);
+       ("target_function_integral_method", VStrV (rule_name rt)); ("reference_function_integral_method", VStrV (rule_name rr));
+       ("alpha", VOpaque "alpha")] ++ mode_args m))
+  = match_ref pw x y xr yr m rt rr.
+Proof. exact glue_match_ref. Qed.
+Print Assumptions C01_glue_match_ref.
+
+(** the defaults of the signature are the documented ones (trapezoid for the target, rectangle for the reference; the proof
+    agent refuted my first version of this statement, which had trapezoid twice: glue_match_defaults_original_false) *)
+Theorem C01_glue_match_defaults : forall pw x y xr yr,
+  call_fun (match_callf pw) array_methf no_apply no_pow match_functions "integral_matching_reference_stretch"
+     [("x", VArr x); ("y", VArr y); ("x_ref", VArr xr); ("y_ref", VArr yr); ("alpha", VOpaque "alpha")]
+  = call_fun (match_callf pw) array_methf no_apply no_pow match_functions "integral_matching_reference_stretch"
+     [("x", VArr x); ("y", VArr y); ("x_ref", VArr xr); ("y_ref", VArr yr); ("alpha", VOpaque "alpha");
+      ("fixed_points_in_x", VNoneV); ("fixed_points_indices_in_x", VNoneV); ("fixed_points_finding_strategy", VStrV "closest");
+      ("target_function_integral_method", VStrV "trapezoid"); ("reference_function_integral_method", VStrV "rectangle"); ("s", VNoneV)].
+Proof. exact glue_match_defaults_partial. Qed.
+Print Assumptions C01_glue_match_defaults.
+Close Scope string_scope.
